@@ -20,7 +20,7 @@ RULE = ('alphabet {a,b,A,B,0,1,9,$,.,-,/,CJK,kana,hangul,space,NBSP,tab}; thorou
         'init forms, both tokenizers. non-trivial = the query has at least one token and (matcher cases) at least one '
         'expected match; distinct = distinct (tokenizer, query, phrases). Phrases always contain at least one token.')
 EXHAUSTIVE = {'quick': False, 'thorough': False}
-JOB_TIMEOUT = 1500
+JOB_TIMEOUT = 5400
 
 ALPHA = list('abAB') + list('019') + list('$.-/') + list('中日あア한') + [' ', ' ', '\t']
 SUB = ['a', 'b', '1', '$', '-', '中', ' ']
